@@ -32,7 +32,7 @@ pub struct ExWaker(std::task::Waker);
 //@ enditem
 
 impl<T> Scheduler<T> {
-//@ slice src/sources/futures.rs / impl Scheduler<T> / fn schedule :: stmts <<let mut active_guard = self.state.active_tasks.borrow_mut();>> .. <<let index = active_tasks.vacant_key();>> props=C10 name=Scheduler::schedule::head
+//@ slice src/sources/futures.rs / impl Scheduler<T> / fn schedule :: stmts <<let mut active_guard = self.state.active_tasks.borrow_mut();>> .. <<let index =>> props=C10 name=Scheduler::schedule::head
 //@ rw R10 * <<self.state.active_tasks.borrow_mut()>> => <<tasks_cell>>
 //@ sig
     /// S1 slice of Scheduler::schedule: from taking the task table to choosing the key of the new task. R10: the borrow of
